@@ -145,6 +145,28 @@ def run_case(case):
                 warnings.simplefilter("ignore")
                 pre.set_all_attributes_from_json(path, remove_absence_time_list=not rm)
             res.count("C20.same_file_configured_twice")
+        if case["i"] % 3 == 2:
+            # the SAME task was configured before from an earlier result that stood at the same path
+            # (the sub-project with doubled work amounts), then the file was rewritten with the present result
+            I.set_order(I.default_order(sub))
+            s0 = copy.deepcopy(sub)
+            for t_ in s0["tasks"]:
+                t_["work"] = t_["work"] * 2 + 1
+            s0["sim"]["max_time"] = G.feasible_bound(s0)
+            sm0 = B.build(s0)
+            sm0.project.unit_timedelta = datetime.timedelta(seconds=case["sub_unit"] * 2)
+            try:
+                B.run(sm0.project, s0)
+                if sm0.project.status == P.FINISHED_SUCCESS:
+                    sm0.project.write_simple_json(path)
+                    with warnings.catch_warnings():
+                        warnings.simplefilter("ignore")
+                        st.set_all_attributes_from_json(path, remove_absence_time_list=rm)
+                    res.count("C20.same_task_configured_before_from_earlier_result")
+            except Exception:
+                pass
+            sm.project.write_simple_json(path)
+            I.set_order(I.default_order(parent))
         with warnings.catch_warnings(record=True) as wlist:
             warnings.simplefilter("always")
             st.set_all_attributes_from_json(path, remove_absence_time_list=rm)
